@@ -2449,7 +2449,16 @@ impl Property for C14 {
         };
         base.max_soft = 5;
         base.max_root_reqs = 3;
-        let mut sc = std_scenario(seed, &swarm(seed, base, tier), None);
+        // one seed in four: the dense parameter set (few small packages, hints x Unknown x exclusions x constrains at a
+        // high rate) with a short hard problem and several soft requirements
+        let dense = seed % 4 == 3;
+        if dense {
+            base = GenParams::dense();
+            base.max_soft = 4;
+            base.max_root_reqs = 2;
+        }
+        let params = if dense { base } else { swarm(seed, base, tier) };
+        let mut sc = std_scenario(seed, &params, None);
         maybe_unrequested_soft(seed, &mut sc, 4);
         maybe_exempt_soft_family(seed, &mut sc, 8);
         maybe_rejected_soft_run(seed, &mut sc, 12);
@@ -2522,6 +2531,8 @@ impl Property for C14 {
                 }
                 let mut accepted = 0;
                 let mut rejected = 0;
+                // soft solvables that cannot be installed whatever else happens (not even with the exemption)
+                let mut dead: BTreeSet<u32> = BTreeSet::new();
                 for x in &p.soft {
                     if set.contains(x) {
                         accepted += 1;
@@ -2529,6 +2540,7 @@ impl Property for C14 {
                         rejected += 1;
                     }
                     if let Sat::Unsat = reference::ref_solve(&sc.world, p, &[*x], Leniency::SoftExempt) {
+                        dead.insert(*x);
                         if set.contains(x) {
                             v.violate("uninstallable-soft-included", format!("soft solvable {x} cannot be part of any valid selection but is in {s:?}"));
                         }
@@ -2544,6 +2556,21 @@ impl Property for C14 {
                         let missing: Vec<u32> = p.soft.iter().copied().filter(|x| !set.contains(x)).collect();
                         if !missing.is_empty() {
                             v.violate("compatible-soft-skipped", format!("soft solvables {missing:?} are compatible (joint first-choice closure {:?} is valid) but were not installed: {s:?}", fc_all.set));
+                        }
+                    } else if !dead.is_empty() {
+                        // (d') a soft requirement that can never be installed is rejected and rolled back; what its
+                        // attempt leaves behind (learnt clauses, discovered exclusions, fetched metadata) are facts about
+                        // the problem, so it cannot keep the compatible ones out
+                        let live: Vec<u32> = p.soft.iter().copied().filter(|x| !dead.contains(x)).collect();
+                        if !live.is_empty() {
+                            let fc_live = first_choice(&sc.world, &hard, &live);
+                            if fc_live.consistent_exclusive {
+                                applied_d = true;
+                                let missing: Vec<u32> = live.iter().copied().filter(|x| !set.contains(x)).collect();
+                                if !missing.is_empty() {
+                                    v.violate("compatible-soft-skipped-after-rejected", format!("soft solvables {missing:?} are compatible (first-choice closure {:?} of the hard problem and of the installable soft requirements is valid; {dead:?} can never be installed) but were not installed: {s:?}", fc_live.set));
+                                }
+                            }
                         }
                     }
                 }
